@@ -31,7 +31,8 @@
 From KV Require Export Res.BuildRefs.
 From KV Require Res.Labels Res.LabelsDefaults Res.Namespace Res.Hygiene Res.Generators Res.LegacySort Res.Replica Res.Image.
 From KV Require Export Gen.FieldSpecs Gen.NameRefRules Gen.NsScope Gen.TransformerOrder.
-From KV Require Gen.LegacyOrder.
+From KV Require Gen.LegacyOrder Gen.WalkTables.
+From KV Require Res.Selector Yaml.Merge2Identity Corr.SchemaTable Base.RegexParse.
 Local Open Scope string_scope.
 
 Definition pairs := list (string * string).
@@ -65,8 +66,18 @@ Record pgopts := mkPGopts {
   go_disable_hash : bool
 }.
 
+(* one patches: entry holding strategic-merge documents (inline text or file content: the loader is C05's concern).
+   [pp_schema] is the projection of the openapi schema on the paths of the documents the entry can meet, as the
+   correspondence observes it on the running implementation (Corr/SchemaTable.v, as in C04); theorems quantify
+   over it *)
+Record ppatch := mkPPatch {
+  pp_docs : list node;                          (* the documents of the patch text (Factory.SliceFromBytes) *)
+  pp_target : option Selector.selector;         (* target: *)
+  pp_schema : SchemaTable.sroots
+}.
+
 (* the directives of one kustomization file *)
-Record pdirs := mkPDirsX {
+Record pdirs := mkPDirsP {
   pd_ns : string;                             (* namespace: *)
   pd_prefix : string;                         (* namePrefix: *)
   pd_suffix : string;                         (* nameSuffix: *)
@@ -77,8 +88,12 @@ Record pdirs := mkPDirsX {
   pd_secgens : list pgen;                     (* secretGenerator: *)
   pd_genopts : option pgopts;                 (* generatorOptions: (None: absent) *)
   pd_replicas : list Replica.replica;         (* replicas: (name, count as decimal text) *)
-  pd_images : list Image.image                (* images: *)
+  pd_images : list Image.image;               (* images: *)
+  pd_patches : list ppatch                    (* patches: (strategic-merge entries) *)
 }.
+
+(* a kustomization file without patches *)
+Definition mkPDirsX ns p s l cl ca cm sec go rp im : pdirs := mkPDirsP ns p s l cl ca cm sec go rp im [].
 
 (* a kustomization file without replicas / images, and without generatorOptions *)
 Definition mkPDirsG ns p s l cl ca cm sec go : pdirs := mkPDirsX ns p s l cl ca cm sec go [] [].
@@ -108,10 +123,10 @@ Definition pipe_rules : res (list nbr) :=
 (* the builtin transformers this model implements; the others of the generated order have no directive
    in the syntax and are therefore never configured *)
 Definition modelled_transformers : list string :=
-  ["NamespaceTransformer"; "PrefixTransformer"; "SuffixTransformer"; "LabelTransformer"; "AnnotationsTransformer";
-   "ReplicaCountTransformer"; "ImageTagTransformer"].
+  ["PatchTransformer"; "NamespaceTransformer"; "PrefixTransformer"; "SuffixTransformer"; "LabelTransformer";
+   "AnnotationsTransformer"; "ReplicaCountTransformer"; "ImageTagTransformer"].
 Definition unmodelled_transformers : list string :=
-  ["PatchStrategicMergeTransformer"; "PatchTransformer"; "PatchJson6902Transformer"; "ReplacementTransformer"].
+  ["PatchStrategicMergeTransformer"; "PatchJson6902Transformer"; "ReplacementTransformer"].
 
 (* obligation Gen_transformer_order_known: every element of the generated order is classified, no repeats *)
 Definition transformer_order_known_b : bool :=
@@ -451,9 +466,166 @@ Section Pipeline.
   Definition label_dirs (d : pdirs) : Labels.dirs :=
     Labels.mkDirs (pd_labels d) (pd_common_labels d) (pd_common_annos d).
 
+  (* ResId == ResId (Go struct equality: the isClusterScoped flag included) *)
+  Definition resid_raw_eqb (a b : resid) : bool :=
+    String.eqb (id_name a) (id_name b) && String.eqb (id_ns a) (id_ns b) &&
+    String.eqb (g_group (id_gvk a)) (g_group (id_gvk b)) && String.eqb (g_version (id_gvk a)) (g_version (id_gvk b)) &&
+    String.eqb (g_kind (id_gvk a)) (g_kind (id_gvk b)) && Bool.eqb (g_cs (id_gvk a)) (g_cs (id_gvk b)).
+
+  (* ---------- patches: (PatchTransformerPlugin, strategic-merge form) ----------
+     One PatchTransformer per entry.  The target documents the Go code merges into carry the build annotations
+     inside metadata.annotations; this model keeps them beside the document, so the document is materialised
+     before Select / merge2 and the annotations are read back afterwards: a patch that replaces or deletes
+     metadata.annotations loses the rename history exactly as the implementation does. *)
+  Definition build_annos (r : resource) : pairs :=
+    let opt k (o : option string) := match o with Some v => [(k, v)] | None => [] end in
+    (opt "internal.config.kubernetes.io/previousKinds" (r_pkinds r) ++
+     opt "internal.config.kubernetes.io/previousNames" (r_pnames r) ++
+     opt "internal.config.kubernetes.io/prefixes" (r_prefixes r) ++
+     opt "internal.config.kubernetes.io/suffixes" (r_suffixes r) ++
+     opt "internal.config.kubernetes.io/previousNamespaces" (r_pnss r) ++
+     (if r_needs_hash r then [("internal.config.kubernetes.io/needsHashSuffix", "enabled")] else []))%list.
+  Definition build_keys : list string :=
+    ["internal.config.kubernetes.io/previousKinds"; "internal.config.kubernetes.io/previousNames";
+     "internal.config.kubernetes.io/prefixes"; "internal.config.kubernetes.io/suffixes";
+     "internal.config.kubernetes.io/previousNamespaces"; "internal.config.kubernetes.io/needsHashSuffix"].
+
+  (* the document as the Go Resource holds it *)
+  Definition materialize (r : resource) : node :=
+    match build_annos r with
+    | [] => r_node r
+    | ba =>
+        match r_node r with
+        | Map kvs =>
+            match find_field "metadata" kvs with
+            | Some (Map mkvs) =>
+                let extra := map (fun kv => (fst kv, str_node (snd kv))) ba in
+                let mkvs' := match find_field "annotations" mkvs with
+                             | Some (Map a) => set_first "annotations" (Map (a ++ extra)%list) mkvs
+                             | _ => (remove_first "annotations" mkvs ++ [("annotations", Map extra)])%list
+                             end in
+                Map (set_first "metadata" (Map mkvs') kvs)
+            | _ => r_node r
+            end
+        | _ => r_node r
+        end
+    end.
+
+  (* ... and back: the build annotations leave the document (the field with them when nothing else is in it) *)
+  Definition absorb_annos (n : node) : resource :=
+    match n with
+    | Map kvs =>
+        match find_field "metadata" kvs with
+        | Some (Map mkvs) =>
+            match find_field "annotations" mkvs with
+            | Some (Map a) =>
+                let get k := match find_field k a with Some v => Some (node_value v) | None => None end in
+                let rest := filter (fun kv => negb (str_in (fst kv) build_keys)) a in
+                if Nat.eqb (List.length rest) (List.length a) then load n else
+                let mkvs' := match rest with
+                             | [] => remove_first "annotations" mkvs
+                             | _ => set_first "annotations" (Map rest) mkvs
+                             end in
+                mkRes (Map (set_first "metadata" (Map mkvs') kvs))
+                      (get "internal.config.kubernetes.io/previousNames")
+                      (get "internal.config.kubernetes.io/previousNamespaces")
+                      (get "internal.config.kubernetes.io/previousKinds")
+                      (get "internal.config.kubernetes.io/prefixes")
+                      (get "internal.config.kubernetes.io/suffixes")
+                      (match get "internal.config.kubernetes.io/needsHashSuffix" with
+                       | Some v => String.eqb v "enabled"
+                       | None => false
+                       end)
+            | _ => load n
+            end
+        | _ => load n
+        end
+    | _ => load n
+    end.
+
+  Definition nil_doc : node := Scalar TNull SPlain "".     (* Resource.SetYNode(nil) *)
+
+  (* Resource.ApplySmPatch (no allowNameChange / allowKindChange options): patchstrategicmerge.Filter, then kind, name
+     and namespace of the target restored (w-c04's Yaml/Merge2Identity.apply_sm_patch) *)
+  Definition apply_sm (sch : SchemaTable.sroots) (patch : node) (r : resource) : res resource :=
+    do o <- Merge2Identity.apply_sm_patch (SchemaTable.tree_schema sch) WalkTables.gen_assoc_keys nonstr patch (materialize r);
+    match o with
+    | None => Ok (load nil_doc)
+    | Some x => Ok (absorb_annos x)
+    end.
+
+  (* resWrangler.ApplySmPatch prepares a copy of the patch per selected resource: CopyMergeMetaDataFieldsFrom(patch)
+     (labels / annotations rebuilt: sorted, !!str; name and namespace rewritten; errors dropped), SetGvk(target gvk),
+     SetKind(patch kind) *)
+  Definition set_api_version (v : string) (n : node) : node :=
+    match put nonstr [] "apiVersion" (Scalar TNone SPlain v) n with Ok (n', _) => n' | _ => n end.
+  Definition patch_copy_for (patch target : node) : node :=
+    let pr := load patch in
+    let p1 := match copy_merge_meta pr pr with Ok x => r_node x | _ => patch end in
+    let tg := cur_gvk pipe_cs target in
+    let p2 := Merge2Identity.set_kind nonstr (g_kind tg) p1 in
+    let p3 := set_api_version (Namespace.gvk_api_version (g_group tg) (g_version tg)) p2 in
+    Merge2Identity.set_kind nonstr (get_kind patch) p3.
+
+  Definition sel_cs (g : Selector.gvk) : bool :=
+    pipe_cs (Namespace.gvk_api_version (Selector.g_group g) (Selector.g_version g)) (Selector.g_kind g).
+
+  (* resWrangler.ApplySmPatch(selectedSet, patch): the id set is compared with CurId; what is nil or empty afterwards
+     is dropped and the rest re-appended (id conflicts are errors) *)
+  Fixpoint apply_selected (sch : SchemaTable.sroots) (ids : list resid) (patch : node) (m : list resource) : res (list resource) :=
+    match m with
+    | [] => Ok []
+    | r :: t =>
+        do r' <- (if existsb (resid_raw_eqb (cur_id pipe_cs r)) ids
+                  then apply_sm sch (patch_copy_for patch (r_node r)) r else Ok r);
+        do t' <- apply_selected sch ids patch t;
+        Ok (if nil_or_empty (r_node r') then t' else r' :: t')
+    end.
+  Definition apply_to_set (sch : SchemaTable.sroots) (ids : list resid) (patch : node) (m : list resource) : res (list resource) :=
+    do l <- apply_selected sch ids patch m;
+    append_all pipe_cs [] l.
+
+  (* no target: every document of the patch goes to the unique resource one of whose ids equals the patch's id
+     (GetById(patch.OrgId())), directly (no copy, nothing dropped here) *)
+  Fixpoint patch_by_id (sch : SchemaTable.sroots) (docs : list node) (m : list resource) : res (list resource) :=
+    match docs with
+    | [] => Ok m
+    | p :: t =>
+        do ms <- matching_any (cur_id pipe_cs (load p)) 0 m;
+        match ms with
+        | [i] =>
+            match nth_error m i with
+            | Some r => do r' <- apply_sm sch p r; patch_by_id sch t (replace_nth i r' m)
+            | None => Err
+            end
+        | _ => Err
+        end
+    end.
+
+  Definition patch_transform (p : ppatch) (m : list resource) : res (list resource) :=
+    match pp_target p with
+    | Some s =>
+        match pp_docs p with
+        | [patch] =>
+            do idx <- Selector.select RegexParse.re_parse sel_cs Selector.simple_lsel s (map materialize m);
+            let ids := flat_map (fun i => match nth_error m i with Some r => [cur_id pipe_cs r] | None => [] end) idx in
+            apply_to_set (pp_schema p) ids patch m
+        | _ => Err
+        end
+    | None => patch_by_id (pp_schema p) (pp_docs p) m
+    end.
+
+  (* one transformer per entry; the multiTransformer drops the empties after each *)
+  Fixpoint patches_transform (ps : list ppatch) (m : list resource) : res (list resource) :=
+    match ps with
+    | [] => Ok m
+    | p :: t => do m' <- patch_transform p m; patches_transform t (drop_empties m')
+    end.
+
   (* one builtin transformer kind of the generated order, as configured from the directives of [d] *)
   Definition run_kind (k : string) (d : pdirs) (m : list resource) : res (list resource) :=
-    if String.eqb k "NamespaceTransformer" then namespace_transform (pd_ns d) m
+    if String.eqb k "PatchTransformer" then patches_transform (pd_patches d) m
+    else if String.eqb k "NamespaceTransformer" then namespace_transform (pd_ns d) m
     else if String.eqb k "PrefixTransformer" then
       prefix_transform pipe_cs gen_name_prefix_fs gen_prefix_skip (pd_prefix d) m
     else if String.eqb k "SuffixTransformer" then
@@ -487,7 +659,8 @@ Section Pipeline.
     match pd_labels d, pd_common_labels d, pd_common_annos d with [], [], [] => true | _, _, _ => false end &&
     match pd_cmgens d, pd_secgens d with [], [] => true | _, _ => false end &&
     match pd_genopts d with None => true | Some _ => false end &&
-    match pd_replicas d, pd_images d with [], [] => true | _, _ => false end.
+    match pd_replicas d, pd_images d with [], [] => true | _, _ => false end &&
+    match pd_patches d with [] => true | _ => false end.
   Definition is_empty_kust (d : pdirs) (ents : list ptree) : bool :=
     match ents with [] => dirs_empty d | _ => false end.
 
@@ -587,11 +760,6 @@ Section Pipeline.
      local-config annotation), Append of what is kept to a fresh ResMap - an id collision is an ERROR
      (/repo 66fde0c; it was a panic in Factory.FromResourceSlice) - and ResAccumulator.Intersection: every resource whose id (compared with ==) is not among the kept ones is
      Removed, and Remove fails unless exactly one resource carries that id *)
-  Definition resid_raw_eqb (a b : resid) : bool :=
-    String.eqb (id_name a) (id_name b) && String.eqb (id_ns a) (id_ns b) &&
-    String.eqb (g_group (id_gvk a)) (g_group (id_gvk b)) && String.eqb (g_version (id_gvk a)) (g_version (id_gvk b)) &&
-    String.eqb (g_kind (id_gvk a)) (g_kind (id_gvk b)) && Bool.eqb (g_cs (id_gvk a)) (g_cs (id_gvk b)).
-
   Definition validated_meta_ok (n : node) : bool :=
     negb (String.eqb (get_kind n) "") &&
     (has_suffix "List" (get_kind n) || negb (String.eqb (get_name n) "")).
